@@ -350,7 +350,7 @@ func runC11(c *Ctx) {
 			c.Check(same, "callback receives the stored event", p.Pos(cbCall.Pos()), "same SSA value", "callback argument differs from the stored event")
 			// every success return passes store and callback
 			for _, r := range returnsOf(fn) {
-				if len(r.Results) == 1 && isNilConst(r.Results[0]) {
+				if len(r.Results) == 1 && isNilConst(resultsOf(r)[0]) {
 					via := map[ssa.Instruction]bool{}
 					if store != nil {
 						via[store] = true
